@@ -34,7 +34,7 @@ def leaf_schemas():
     out = [{"k": "str"}, {"k": "bool"}, {"k": "num", "f32": False}, {"k": "num", "f32": True}]
     out += [{"k": "int", "f": f} for f in INT_FORMATS]
     # `type: string` with a NUMERIC format (Google-style 64-bit numbers): from_format types the member as a number (F02-9)
-    out += [{"k": "str", "f": "int64"}, {"k": "str", "f": "int32"}, {"k": "str", "f": "double"}]
+    out += [{"k": "str", "f": "int64"}, {"k": "str", "f": "int32"}, {"k": "str", "f": "double"}, {"k": "str", "f": "byte"}]
     return out
 
 
@@ -247,7 +247,7 @@ def spec_of(schema):
 def inst(s, r, wild=0.03):
     k = s["k"]
     if k == "str":
-        return r.choice(STRS + (["123", "0", "-5", "1.5"] if s.get("f") else []))
+        return r.choice(STRS + (["123", "0", "-5", "1.5", "aGVsbG8="] if s.get("f") else []))
     if k == "bool":
         return r.random() < 0.5
     if k == "num":
